@@ -79,8 +79,8 @@ ASSUMPTIONS = [
 ]
 
 FLOORS = {
-    'quick': {'states': 6, 'transitions': 4000, 'validated': 2000, 'outcomes': 3, 'set:symbols_executed': 60, 'set:fault_types': 6, 'set:faults': 15},
-    'thorough': {'states': 6, 'transitions': 250000, 'validated': 90000, 'outcomes': 3, 'set:symbols_executed': 60, 'set:fault_types': 6, 'set:faults': 15},
+    'quick': {'states': 6, 'transitions': 4000, 'validated': 2000, 'outcomes': 3, 'set:symbols_executed': 63, 'set:fault_types': 6, 'set:faults': 15},
+    'thorough': {'states': 6, 'transitions': 250000, 'validated': 90000, 'outcomes': 3, 'set:symbols_executed': 63, 'set:fault_types': 6, 'set:faults': 15},
 }
 
 WD = 10  # seconds per library call
@@ -418,6 +418,11 @@ parse_sym('CSSParser(raise).parseString(rgb-lone-sign)', lambda cx: cssutils.CSS
           "cssutils.CSSParser(raiseExceptions=True).parseString('x{color:rgb(+, 2, 3)}')")
 sym('MediaList(bad)', "cssutils.stylesheets.MediaList('screen, 3')")(lambda cx: cssutils.stylesheets.MediaList('screen, 3'))
 sym('MediaList(and()', "cssutils.stylesheets.MediaList('screen/*c*/and(')")(lambda cx: cssutils.stylesheets.MediaList('screen/*c*/and('))
+# a query that breaks off inside a begun part and is followed by more (refused in raising mode: nothing of it may stay anywhere)
+sym('MediaList(and,)', "cssutils.stylesheets.MediaList('tv and, print')")(lambda cx: cssutils.stylesheets.MediaList('tv and, print'))
+sym('MediaList(and (,)', "cssutils.stylesheets.MediaList('tv and (, print')")(lambda cx: cssutils.stylesheets.MediaList('tv and (, print'))
+parse_sym('CSSParser(raise).parseString(@media and,)', lambda cx: cssutils.CSSParser(raiseExceptions=True).parseString('@media tv and, print {a{top:0}}'),
+          "cssutils.CSSParser(raiseExceptions=True).parseString('@media tv and, print {a{top:0}}')")
 
 
 # -- edits of objects that a list parser has created (they were built in the hand-back mode of the production parser)
